@@ -14,11 +14,13 @@ mod mon_c01;
 mod mon_c02;
 mod mon_c03;
 mod mon_c05;
+mod mon_c06;
 mod mon_c07;
 mod mon_c08;
 mod mon_c09;
 mod mon_c10;
 mod mon_c11;
+mod mon_c14;
 mod mon_c16;
 mod mon_struct;
 mod pins;
@@ -36,12 +38,14 @@ fn monitor(id: &str) -> Option<Box<dyn Monitor>> {
         "C03" => Some(Box::new(mon_c03::C03)),
         "C04" => Some(Box::new(mon_struct::C04)),
         "C05" => Some(Box::new(mon_c05::C05)),
+        "C06" => Some(Box::new(mon_c06::C06)),
         "C07" => Some(Box::new(mon_c07::C07)),
         "C08" => Some(Box::new(mon_c08::C08)),
         "C09" => Some(Box::new(mon_c09::C09)),
         "C10" => Some(Box::new(mon_c10::C10)),
         "C11" => Some(Box::new(mon_c11::C11)),
         "C13" => Some(Box::new(mon_struct::C13)),
+        "C14" => Some(Box::new(mon_c14::C14)),
         "C16" => Some(Box::new(mon_c16::C16)),
         _ => None,
     }
@@ -144,6 +148,25 @@ fn main() {
             for v in &r.violations {
                 println!("VIOLATION {}\n{}\n{}", v.signature, v.summary, serde_json::to_string_pretty(&v.replay).unwrap());
             }
+        }
+        "reduce14" => {
+            // development: shrink a C14 violation (stress profile)
+            install_panic_hook();
+            let _keep = silence_stdio();
+            let idx: u64 = args[3].parse().unwrap();
+            let cfg = mon_c01::cfg_c01();
+            let p = if args[2] == "stress" { cgen::stress_program(idx, &cfg) } else { cgen::gen_program("C01", idx, &cfg) };
+            let tag = if args[2] == "stress" { "C14s" } else { "C14r" };
+            let bad = |q: &cmodel::Program| -> bool { !mon_c14::judge_pub("stress", idx, q, tag).violations.is_empty() };
+            let mut out = _keep;
+            if !bad(&p) {
+                let _ = writeln!(out, "// not violating");
+                return;
+            }
+            let q = reduce::reduce(&p, &bad, 400);
+            let r = mon_c14::judge_pub("stress", idx, &q, tag);
+            let v = &r.violations[0];
+            let _ = writeln!(out, "// {}\n{}\n{}", v.summary.lines().next().unwrap_or(""), v.replay["source"].as_str().unwrap_or(""), v.replay["listing"].as_str().unwrap_or(""));
         }
         "gen" => {
             // vmon gen <tag> <idx> : print a generated program
